@@ -54,15 +54,20 @@ from pyvc.contract import REGISTRY
 fmt = REGISTRY["mdpax.utils.logging.get_convergence_format"]
 fmt.returns = lambda c: FormatSpec(z3.Int("decimals!ret"))       # callers only need "a valid spec"; validity is this function's own obligation
 VISC = "mdpax.solvers.value_iteration.ValueIteration._setup_convergence_testing"
-def setup_sct(test):
+def setup_sct(test, dom):
     def setup(I):
         vimod = I.load_module("mdpax.solvers.value_iteration").globals
         g, e = z3.Real("gamma"), z3.Real("epsilon")
-        I.assume(z3.And(g >= 0, g <= 1, e > 0))            # exactly what the validator accepts
+        # "full": exactly what the validator accepts (C20);  "pos": the discounted/undiscounted range the stopping rule is documented for (C08)
+        I.assume(z3.And(g >= 0 if dom == "full" else g > 0, g <= 1, e > 0))
         cfg = Obj(vimod["ValueIterationConfig"], dict(convergence_test=test), label="config")
         s = Obj(vimod["ValueIteration"], {"config": cfg, "gamma": g, "epsilon": e}, label="solver")
         return Ctx(self=s, _args=[], g=g, e=e)
     return setup
-contract(VISC, scenarios=[("span.", setup_sct("span")), ("max_diff.", setup_sct("max_diff"))],
+contract(VISC, scenarios=[(f"{d}.{t}.", setup_sct(t, d)) for d in ("pos", "full") for t in ("span", "max_diff")],
+    modifies={"_convergence_test_fn", "_convergence_desc", "conv_threshold", "convergence_format"},
     ensures={"threshold": lambda c, q: toz3(c.self.attrs["conv_threshold"]) == z3.If(c.g != 1, c.e * (1 - c.g) / c.g, c.e),
-             "format_set": lambda c, q: z3.BoolVal(isinstance(c.self.attrs.get("convergence_format"), FormatSpec))})
+             "threshold_positive": lambda c, q: toz3(c.self.attrs["conv_threshold"]) > 0,
+             "test_fn_matches_config": lambda c, q: z3.BoolVal(c.self.attrs["_convergence_test_fn"].qualname.endswith("_get_span" if c.self.attrs["config"].attrs["convergence_test"] == "span" else "_get_max_diff")),
+             "format_set": lambda c, q: z3.BoolVal(isinstance(c.self.attrs.get("convergence_format"), FormatSpec)),
+             "CANARY_threshold_is_eps": lambda c, q: toz3(c.self.attrs["conv_threshold"]) == c.e})
